@@ -20,7 +20,9 @@ NAMES = ['encoding', 'version', 'preamble', 'preamble_encoding', 'preamble_inden
          'meta', 'meta_encoding', 'meta_format', 'diff', 'diff_encoding', 'diff_line_endings', 'diff_type', 'bogus', 'content',
          'type', 'indent', 'line_endings', 'mimetype', 'format', 'Encoding', 'preamble_']
 VALS = [None, 'utf-8', 'unix', 'dos', 'mac', 'text/plain', 'text/html', 'json', 'yaml', 'text', 'binary', '1.0', '2.0', 3, 0, -1, True,
-        b'bytes', b'', {}, {'k': 1}, '', [1], 1.5, 'text/markdown']
+        b'bytes', b'', {}, {'k': 1}, '', [1], 1.5, 'text/markdown',
+        # case variants of allowed choices are not allowed choices
+        'DOS', 'Unix', 'Binary', 'TEXT', 'text/Markdown', 'Text/Plain', 'JSON', 'Json']
 
 
 def target(o, path):
